@@ -99,6 +99,8 @@ def normalize(cfg: Dict[str, Any]) -> Dict[str, Any]:
     # only when the scenario opens gate ("ack", m, 0)
     c["ackfut"] = bool(c.pop("ack_future", c.get("ackfut", False))) and not c["ackasync"]
     c.setdefault("propagate", True)
+    c["noparse"] = bool(c.get("noparse", False))
+    c["synconly"] = bool(c.get("synconly", False))
     c["bsusp"] = bool(c.pop("backend_suspend", c.get("bsusp", False)))
     c["msgs"] = [{**MSG_DEFAULT, **m} for m in c.get("msgs", [])]
     for i, m in enumerate(c["msgs"], start=1):
